@@ -448,6 +448,21 @@ impl<T: Corp, E: Corp> Corp for Result<T, E> {
             Err(e) => var(named("Err"), e.idl()),
         }
     }
+    // host limits and duplicates of the payload are those of the alternative taken
+    fn host_ok(v: &IDLValue) -> bool {
+        match v {
+            IDLValue::Variant(x) if x.0.id.get_id() == candid::idl_hash("Ok") => T::host_ok(&x.0.val),
+            IDLValue::Variant(x) if x.0.id.get_id() == candid::idl_hash("Err") => E::host_ok(&x.0.val),
+            _ => true,
+        }
+    }
+    fn no_dups(v: &IDLValue) -> bool {
+        match v {
+            IDLValue::Variant(x) if x.0.id.get_id() == candid::idl_hash("Ok") => T::no_dups(&x.0.val),
+            IDLValue::Variant(x) if x.0.id.get_id() == candid::idl_hash("Err") => E::no_dups(&x.0.val),
+            _ => true,
+        }
+    }
 }
 
 use candid::types::bounded_vec::{BoundedVec, UNBOUNDED};
